@@ -554,6 +554,13 @@ fn process_request_obj(request: &Request, dbs: &Arc<Databases>, client: &mut Cli
             opp_id,
         } => {
             log::debug!("ack send_message_to_secoundary {} {}", opp_id, request_str);
+            // The replication thread never wraps an envelope in an envelope: refusing one bounds
+            // the recursion below, whatever a client sends
+            if request_str.trim_matches('\n').starts_with("rp ") {
+                return Response::Error {
+                    msg: String::from("Invalid replication request str"),
+                };
+            }
             client
                 .sender
                 .clone()
